@@ -584,9 +584,13 @@ class RTCRtpReceiver:
                         )
                     )
 
-                if self.__rtcp_ssrc is not None and reports:
-                    packet = RtcpRrPacket(ssrc=self.__rtcp_ssrc, reports=reports)
-                    await self._send_rtcp(packet)
+                if self.__rtcp_ssrc is not None:
+                    # an RTCP packet holds at most 31 report blocks
+                    for i in range(0, len(reports), 31):
+                        packet = RtcpRrPacket(
+                            ssrc=self.__rtcp_ssrc, reports=reports[i : i + 31]
+                        )
+                        await self._send_rtcp(packet)
 
         except asyncio.CancelledError:
             pass
